@@ -19,6 +19,7 @@ whose hard case, the derivation that follows a backjump, rests on the satisfier 
 import PubgrubProofs.Protocol
 import PubgrubProofs.Freshness
 import PubgrubProofs.NonEmpty
+import PubgrubProofs.CanonInstances
 
 namespace Pubgrub.C12
 open Pubgrub Pubgrub.Solver VersionSet
@@ -77,5 +78,14 @@ theorem C12_no_empty_term [LawfulVersionSet S V] [CanonicalEmpty S V] (W : World
     (x : SolverState P S V M Pr × Request P S V M Pr E)
     (h : Reachable W debug fuel root rv x) (hph : x.2.isFinal = false) : x.1.st.ps.NonEmpty :=
   reachable_nonEmpty W hW debug fuel root rv x h hph
+
+/-- non-vacuity of `CanonicalEmpty`: `Range` over a non-empty dense linear order without end points -/
+theorem C12_canonicalEmpty_range {T : Type} [LinearOrder T] [DenselyOrdered T] [NoMinOrder T]
+    [NoMaxOrder T] [Nonempty T] : CanonicalEmpty (Range T) T := Range.canonicalEmpty
+
+/-- non-vacuity of `CanonicalEmpty`: the bit set over `Fin n` -/
+theorem C12_canonicalEmpty_bitset (n : Nat) :
+    @CanonicalEmpty (BitSet n) (Fin n) (BitSet.instVersionSetBitSetFin n) (BitSet.lawful n) :=
+  BitSet.canonicalEmpty n
 
 end Pubgrub.C12
